@@ -12,3 +12,4 @@ import NakenVerif.Props.C14
 import NakenVerif.Props.C15
 import NakenVerif.Props.C05
 import NakenVerif.Props.C03
+import NakenVerif.Props.C17
